@@ -180,7 +180,30 @@ def check(ck):
     gr = cfg_of(fres)
     dr = dominators(gr)
     rz = [n for n in gr.live_nodes() if n.kind == "raise"]
-    ck.require(len(rz) == 1 and dump(rz[0].ast.exc).startswith("OSError") and any(
+    def _is_oserror(e_):
+        # OSError, one of its aliases / builtin subclasses (IOError, TimeoutError ...) or a class of the package deriving from it
+        nm = dump(e_.func if isinstance(e_, ast.Call) else e_).split(".")[-1]
+        narrow._EXTRA_PARENTS = narrow.program_exception_parents(prog)
+        import builtins as _b
+
+        def _os(nm_, depth=0):
+            k_ = getattr(_b, nm_, None)
+            if (isinstance(k_, type) and issubclass(k_, OSError)) or narrow.is_sub(nm_, "OSError") or narrow.is_sub(nm_, "IOError"):
+                return True
+            if depth > 3:
+                return False
+            # a module-level name: every binding of it (an alias chosen in a try / except NameError, a fallback class) is one
+            binds = []
+            for st_ in ast.walk(prog.modules[TP].tree):
+                if isinstance(st_, ast.Assign) and any(isinstance(t_, ast.Name) and t_.id == nm_ for t_ in st_.targets):
+                    binds.append(dump(st_.value).split(".")[-1] if isinstance(st_.value, (ast.Name, ast.Attribute)) else None)
+                elif isinstance(st_, ast.ClassDef) and st_.name == nm_:
+                    binds.append([dump(b_).split(".")[-1] for b_ in st_.bases])
+            if not binds:
+                return False
+            return all((isinstance(b_, str) and _os(b_, depth + 1)) or (isinstance(b_, list) and any(_os(x_, depth + 1) for x_ in b_)) for b_ in binds)
+        return _os(nm)
+    ck.require(len(rz) == 1 and rz[0].ast.exc is not None and _is_oserror(rz[0].ast.exc) and any(
         gr.nodes[i].kind == "branch" and "_done_event.wait" in dump(gr.nodes[i].test) and not gr.nodes[i].polarity for i in dr[rz[0].id]),
         "C16.4", "%s: false wait raises OSError" % q.fn(fres), "raise OSError on timeout", "result() does not raise OSError when the wait times out", q.loc(fres, fres.node))
     wcalls = [c for n in gr.live_nodes() for c in node_calls(n) if dump(c.func) == "self._done_event.wait"]
